@@ -14,7 +14,8 @@ import sys, os, random
 sys.path.insert(0, os.path.dirname(os.path.abspath(__file__)))
 import common, refcheck
 
-THEOREMS = ["Nmfu.C01_machine_refines_reference", "Nmfu.C07_language_exact"]
+THEOREMS = ["Nmfu.C01_machine_refines_reference", "Nmfu.C07_language_exact", "Nmfu.C08_step_is_casePick", "Nmfu.C08_pick_sound",
+            "Nmfu.C08_else_only_when_nothing_matches", "Nmfu.C08_complete_means_word", "Nmfu.C08_dead_means_no_extension"]
 
 
 def pattern(rng, first):
@@ -88,5 +89,5 @@ if __name__ == "__main__":
                   "known_key": "greedy-prefix-clause-hook-runs-early",
                   "known_what": "in a greedy case a clause body of nothing but hook calls runs as soon as its pattern is complete, although a longer pattern of another clause goes on to match (both clauses' hooks run on 'abc')",
                   "src": 'hook h0;\nhook h1;\nparser {\n  greedy case {\n    prio 1 "b", "a" -> { h0(); }\n    prio 1 "abc" -> { h1(); }\n  }\n  ";";\n}\n'})
-    refcheck.run("C08", THEOREMS, "NmfuProps.C01", progs,
+    refcheck.run("C08", THEOREMS, "NmfuProps", progs,
                  "generated case statements (1-4 clauses x 1-3 patterns; literals, casei, regexes, concatenations; else; greedy with priorities; three surrounding shapes) with marker hooks per clause; distinct accepted programs with at least 3 states")
